@@ -842,7 +842,42 @@ func pick(rng *vh.RNG, pool []string, k int) []string {
 	return out
 }
 
+// churnCase: one ability creates and forgets many members (64..140 terminations, more than it holds at any time), then a
+// pair is created and looked up again, and survivors are looked up: whatever housekeeping the manager does with its tables
+// after heavy churn must not lose a live member
+func churnCase(rng *vh.RNG) Case {
+	c := Case{Offered: []string{"room", "chat"}, Mode: "seq"}
+	L := func(i, a string) Op { return Op{K: "L", I: i, A: a} }
+	S := func(i, a string) Op { return Op{K: "S", I: i, A: a} }
+	keep := rng.Range(0, 3)
+	for j := 0; j < keep; j++ {
+		c.Ops = append(c.Ops, L(fmt.Sprintf("k%d", j), "room"))
+	}
+	c.Ops = append(c.Ops, L("alice", "chat"))
+	n := rng.Range(64, 140)
+	for j := 0; j < n; j++ {
+		id := fmt.Sprintf("m%d", j)
+		c.Ops = append(c.Ops, L(id, "room"))
+		if rng.Chance(1, 8) {
+			c.Ops = append(c.Ops, L(id, "room"))
+		}
+		c.Ops = append(c.Ops, S(id, "room"))
+	}
+	for r := 0; r < 3; r++ {
+		id := fmt.Sprintf("n%d", r)
+		c.Ops = append(c.Ops, L(id, "room"), L(id, "room"))
+	}
+	for j := 0; j < keep; j++ {
+		c.Ops = append(c.Ops, L(fmt.Sprintf("k%d", j), "room"))
+	}
+	c.Ops = append(c.Ops, L("alice", "chat"), L("n0", "room"))
+	return c
+}
+
 func genCase(rng *vh.RNG, mal bool) Case {
+	if !mal && rng.Chance(1, 60) {
+		return churnCase(rng)
+	}
 	var c Case
 	ids := pick(rng, identityPool, 3)
 	abs := pick(rng, abilityPool, 3)
@@ -950,6 +985,12 @@ func genCase(rng *vh.RNG, mal bool) Case {
 }
 
 func corpus() []Case {
+	cs := corpus0()
+	r, _ := vh.NewRNG(13).Derive()
+	return append(cs, churnCase(r))
+}
+
+func corpus0() []Case {
 	L := func(i, a string) Op { return Op{K: "L", I: i, A: a} }
 	S := func(i, a string) Op { return Op{K: "S", I: i, A: a} }
 	B := func(i, a string) Op { return Op{K: "B", I: i, A: a} }
